@@ -30,6 +30,8 @@ def check(rep, text, lay, groups):
     why = None
     if d.current_layout != lay:
         why = f'layout deduced as {d.current_layout}, description is in {lay}'
+    elif d.deduce_layout() != lay:
+        why = f'PLSSDesc.deduce_layout() answers {d.deduce_layout()}, description is in {lay}'
     elif got != exp:
         why = 'tracts differ from the sections named in the description'
     elif d.e_flags:
